@@ -4,6 +4,7 @@ import (
 	"fmt"
 	"hash/fnv"
 	"regexp"
+	"sort"
 	"strings"
 
 	"github.com/influxdata/influxdb/v2/influxql/query"
@@ -144,7 +145,12 @@ func genTagKeyExpr(t *rapid.T, label string) *cexpr {
 	}
 }
 
-var tagRegexes = []string{"^a", "a|x", "^$", ".*", "b$", "^(ab|y)$", "^a$"}
+// "." matches every value a series can carry, "^.$" the one-letter values (a and b but not ab:
+// matching values that are not adjacent in the index' sorted value list), "x|y" both regions.
+var tagRegexes = []string{"^a", "a|x", "^$", ".*", "b$", "^(ab|y)$", "^a$", ".", "^.$", "x|y"}
+
+// regexes that do not match the empty string
+var positiveTagRegexes = []string{"^a", "a|x", "b$", "^(ab|y)$", "^a$", ".", "^.$", "x|y"}
 
 func genTagLeaf(t *rapid.T, label string, positiveOnly bool) *cexpr {
 	key := rapid.SampledFrom([]string{"host", "host", "region", "region", "zz"}).Draw(t, label+"key")
@@ -156,7 +162,7 @@ func genTagLeaf(t *rapid.T, label string, positiveOnly bool) *cexpr {
 	if op == "=~" || op == "!~" {
 		res := tagRegexes
 		if positiveOnly {
-			res = []string{"^a", "a|x", "b$", "^(ab|y)$", "^a$"}
+			res = positiveTagRegexes
 		}
 		return leafOf(key, op, rapid.SampledFrom(res).Draw(t, label+"re"))
 	}
@@ -232,11 +238,24 @@ func parseCond(c *cexpr) (influxql.Expr, error) {
 
 // authSpec describes a generated authorizer.
 type authSpec struct {
-	Mode string `json:"mode"` // open | nil | deny-measurement | deny-tagpair | allow-tagpair | deny-hash | deny-all
+	Mode string `json:"mode"` // open | nil | deny-measurement | deny-tagpair | allow-tagpair | deny-values | deny-series | deny-hash | deny-all
 	M    string `json:"m,omitempty"`
 	K    string `json:"k,omitempty"`
 	V    string `json:"v,omitempty"`
 	Salt int    `json:"salt,omitempty"`
+	// deny-values: the series whose tag K has one of these values are hidden
+	Vs []string `json:"vs,omitempty"`
+	// deny-series: exactly these series (keys) are hidden
+	Hidden []string `json:"hidden,omitempty"`
+}
+
+func inList(l []string, v string) bool {
+	for _, x := range l {
+		if x == v {
+			return true
+		}
+	}
+	return false
 }
 
 func (a authSpec) fine() bool { return a.Mode != "open" && a.Mode != "nil" }
@@ -249,6 +268,11 @@ func (a authSpec) allowed(name string, tags map[string]string) bool {
 		return tags[a.K] != a.V
 	case "allow-tagpair":
 		return tags[a.K] == a.V
+	case "deny-values":
+		v, ok := tags[a.K]
+		return !ok || !inList(a.Vs, v)
+	case "deny-series":
+		return !inList(a.Hidden, string(models.MakeKey([]byte(name), models.NewTags(tags))))
 	case "deny-hash":
 		h := fnv.New32a()
 		fmt.Fprintf(h, "%d|%s", a.Salt, name)
@@ -286,7 +310,13 @@ func (a authSpec) authorizer() query.Authorizer {
 	return fineAuthorizer{spec: a}
 }
 
-func genAuth(t *rapid.T) authSpec {
+// genAuth draws an authorizer; series are the series of the dataset (deny-series hides an
+// arbitrary subset of them, so that any combination of hidden / visible series inside one
+// measurement or one tag value can occur).
+func genAuth(t *rapid.T, series []string) authSpec { return genAuthFrom(t, series, 0) }
+
+// genAuthFrom: lo = 0 for every mode, 4 for the fine-grained modes only.
+func genAuthFrom(t *rapid.T, series []string, lo int) authSpec {
 	tagPair := func() (string, string) {
 		k := rapid.SampledFrom([]string{"host", "region"}).Draw(t, "authk")
 		if k == "host" {
@@ -294,7 +324,21 @@ func genAuth(t *rapid.T) authSpec {
 		}
 		return k, rapid.SampledFrom([]string{"x", "y"}).Draw(t, "authv")
 	}
-	switch rapid.IntRange(0, 13).Draw(t, "auth") {
+	switch rapid.IntRange(lo, 18).Draw(t, "auth") {
+	case 14, 15, 16:
+		n := len(series)
+		hid := rapid.SliceOfNDistinct(rapid.SampledFrom(series), 1, max(1, n-1), rapid.ID[string]).Draw(t, "authhidden")
+		sort.Strings(hid)
+		return authSpec{Mode: "deny-series", Hidden: hid}
+	case 17, 18:
+		k := rapid.SampledFrom([]string{"host", "host", "region"}).Draw(t, "authk")
+		dom := []string{"a", "ab", "b"}
+		if k == "region" {
+			dom = []string{"x", "y"}
+		}
+		vs := rapid.SliceOfNDistinct(rapid.SampledFrom(dom), 1, len(dom), rapid.ID[string]).Draw(t, "authvs")
+		sort.Strings(vs)
+		return authSpec{Mode: "deny-values", K: k, Vs: vs}
 	case 0, 1, 2:
 		return authSpec{Mode: "open"}
 	case 3:
